@@ -444,6 +444,13 @@ example :
     (renderCall (G0 [2000] [7]) PState.init [exP1, exP2]).2.static = (G0 [2000] [7]).static := by
   refine ⟨?_, ?_, ?_, ?_⟩ <;> decide
 
+/-- `rg` selects `csmap["DeviceRGB"]` of the PAGE: a page whose resources redefine `/DeviceRGB` as a 4-component
+ICC space gets that one — and the next page, without such resources, the predefined 3-component space again -/
+example : ((renderCall (G0 [] []) PState.init
+      [⟨[(Gen.ProcGlobals.IDX_DEVICERGB, .icc 4)], [.dev false 1, .dev true 2]⟩, ⟨[], [.dev false 1]⟩]).1.map
+      (fun s => (s.scs, s.ncs))) =
+    [(some (5, 4), some (ICCBASED, 4)), (some (0, 1), some (4, 3))] := by decide
+
 /-- non-vacuity of the STRICT branch: under `STRICT` the undefined colour space stops the page -/
 example : (renderPage { G0 [] [] with strict := true } PState.init ⟨[], [.Tc 3, .cs 2000, .Tw 9]⟩).1.err = true ∧
     (renderPage { G0 [] [] with strict := true } PState.init ⟨[], [.Tc 3, .cs 2000, .Tw 9]⟩).1.ts.wordspace = 0 ∧
